@@ -7,7 +7,7 @@
 //      -> "H coeffi mid(6) end(6)"
 //  E geom field stepper q energy bx by bz px py pz dx dy dz prestart
 //    <13 driver options> ncalls step...
-//      -> "E ok coeffi pmag S px py pz dx dy dz onb vol {C dist bnd loop onb p3 d3 vol fresh outside esame nstepper}*"
+//      -> "E ok coeffi pmag S px py pz dx dy dz onb vol {C dist bnd loop onb p3 d3 vol fresh outside esame nstepper fresh_safety}*"
 //         or "E error <what>"
 // argv[1] = directory with *.org.json, argv[2] = RZ field map json
 #include "../../../harness/common.hh"
@@ -238,11 +238,13 @@ void run_e2e(World& w, std::istream& is)
                 throw std::runtime_error("bad field/stepper combination");
 
             long fresh = -1;
+            double fsafety = 0;
             if (!geo.is_on_boundary())
             {
                 auto f = g.view(1);
                 f = GeoTrackInitializer{geo.pos(), geo.dir()};
                 fresh = f.is_outside() ? -2 : static_cast<long>(f.volume_id().unchecked_get());
+                fsafety = f.is_outside() ? 0 : f.find_safety();
             }
             bool esame = particle.energy().value() == energy;
             os << " C " << hex(r.distance) << ' ' << r.boundary << ' ' << r.looping << ' '
@@ -254,7 +256,7 @@ void run_e2e(World& w, std::istream& is)
                 geo.cross_boundary();
                 outside = geo.is_outside();
             }
-            os << ' ' << outside << ' ' << esame << ' ' << g_nsteps;
+            os << ' ' << outside << ' ' << esame << ' ' << g_nsteps << ' ' << hex(fsafety);
             if (outside)
                 break;
         }
